@@ -553,11 +553,55 @@ def _finite_count(obj):
     return int(np.isfinite(np.asarray(obj.values, dtype=complex)).sum())
 
 
+def _item_rows_missing(M):
+    """list container: rows that are entirely NaN in one item but not in the other (a sample missing in one item only),
+    provided every NaN of the mask is explained by fully missing features, fully missing samples and such item rows."""
+    isn = np.isnan(M)
+    fcol = isn.all(axis=0)
+    rows = []
+    explained = np.repeat(fcol[None, :], M.shape[0], axis=0) | isn.all(axis=1)[:, None]
+    for i in range(M.shape[0]):
+        a, b = isn[i, :2].all(), isn[i, 2:].all()
+        if a != b:
+            rows.append(i)
+            explained[i, :2] |= a
+            explained[i, 2:] |= b
+    return rows if rows and not (isn & ~explained).any() else []
+
+
+def _partial_sample_verdict(case, model, X, fm, sm, Mbad, stage, obj):
+    """A list input in which the NaNs blank one item's whole sample: the lenient reading of `single_listitem` applies."""
+    n = X.shape[0]
+    t = _tlab(n)
+    part = _item_rows_missing(Mbad)
+    gone = sorted(set(sm) | set(part))
+    rows = [i for i in range(n) if i not in gone]
+    cols = [j for j in range(P) if j not in fm]
+    modes = np.arange(1, 3)
+    acc = _Acc(model, container="list", stage=stage)
+    tol = TOL if model == "EOF" else TOL_ROT
+    try:
+        if stage == "fit":
+            d = _fit_single(model, _plain(X, rows, cols), 2)
+            Sd = _scores_matrix(d.scores(), t[rows], modes)
+            acc.embedded("partial_sample_scores", _scores_matrix(obj.scores(), t, modes), Sd, rows, tol=tol, scale=float(np.max(np.abs(Sd))))
+        else:
+            keep0 = [i for i in range(n) if i not in sm]
+            ref = _scores_matrix(obj.transform(_container(_apply(X, fm, sm), "list")), t, modes, allow_omitted=t[sm] if sm else None)
+            tr = obj.transform(_container(Mbad, "list"))
+            acc.embedded("partial_sample_transform", _scores_matrix(tr, t, modes, allow_omitted=t[gone]), ref[rows], rows, tol=tol, scale=float(np.nanmax(np.abs(ref[keep0]))))
+    except D.LabelError as e:
+        acc.bad("partial_sample_labels", str(e))
+    return acc.result("ok_treated_as_deleted")
+
+
 def _run_isolated(case, seed):
     n, cont, model, stage = case["n"], case["container"], case["model"], case["stage"]
     X = _base(n, seed)
     fm, sm, cells = _iso_mask(case, n)
-    bad_data = _container(_apply(X, fm, sm, cells), cont)
+    Mbad = _apply(X, fm, sm, cells)
+    bad_data = _container(Mbad, cont)
+    lenient = cont == "list" and bool(_item_rows_missing(Mbad))
     V = []
     with warnings.catch_warnings():
         warnings.simplefilter("ignore")
@@ -566,6 +610,8 @@ def _run_isolated(case, seed):
                 m = _fit_single(model, bad_data, 2)
             except Exception as e:  # noqa: BLE001
                 return dict(outcome="rejected:" + type(e).__name__, nontrivial=False, info=dict(stage=stage))
+            if lenient:
+                return _partial_sample_verdict(case, model, X, fm, sm, Mbad, stage, m)
             nfin = _finite_count(m.components()) + _finite_count(m.scores())
             V.append(viol("isolated_nan_accepted", model, "fit accepted data with an isolated NaN (%s at %d,%d); results hold %d finite values" % (case["pattern"], case["i"], case["j"], nfin),
                           stage="fit", container=cont, pattern=case["pattern"]))
@@ -576,6 +622,8 @@ def _run_isolated(case, seed):
                 tr = m.transform(bad_data)
             except Exception as e:  # noqa: BLE001
                 return dict(outcome="rejected:" + type(e).__name__, nontrivial=False, info=dict(stage=stage))
+            if lenient:
+                return _partial_sample_verdict(case, model, X, fm, sm, Mbad, stage, m)
             V.append(viol("isolated_nan_accepted", model, "transform accepted data with an isolated NaN (%s at %d,%d); %d finite scores returned, %d NaN"
                           % (case["pattern"], case["i"], case["j"], _finite_count(tr), int(tr.size) - _finite_count(tr)),
                           stage="transform", container=cont, pattern=case["pattern"]))
